@@ -18,6 +18,8 @@ struct Case {
     ety: usize, // extern value type selector
     exec: bool,
     public: bool,
+    /// how the attribute that carries the address is surrounded (0 = as printed), see `recontext`
+    ctx: usize,
 }
 
 const ETYS: &[(&str, &str)] = &[("u32", "u32"), ("*mut u8", "*mut u8"), ("[u16; 4]", "[u16;4]"), ("S", "crate::m::S"), ("*const S", "*const crate::m::S"), ("E", "crate::m::E"), ("u64", "u64")];
@@ -31,27 +33,33 @@ fn cases() -> Vec<Case> {
             for st in styles {
                 for kind in ["struct_singleton", "opaque_struct_singleton", "enum_singleton"] {
                     k += 1;
-                    out.push(Case { kind, addr: *a + 0x800 * exec as u64, style: st, ety: 0, exec, public: k % 2 == 0 });
+                    out.push(Case { kind, addr: *a + 0x800 * exec as u64, style: st, ety: 0, exec, public: k % 2 == 0, ctx: 0 });
                 }
                 for ety in 0..ETYS.len() {
                     k += 1;
-                    out.push(Case { kind: "extern_value", addr: *a + 0x900 * exec as u64, style: st, ety, exec, public: k % 2 == 0 });
+                    out.push(Case { kind: "extern_value", addr: *a + 0x900 * exec as u64, style: st, ety, exec, public: k % 2 == 0, ctx: 0 });
                 }
             }
         }
     }
+    // the attribute that carries the address, surrounded by doc lines and other attributes in every order
+    for (kind, ety) in [("struct_singleton", 0usize), ("opaque_struct_singleton", 0), ("enum_singleton", 0), ("extern_value", 0), ("extern_value", 3)] {
+        for ctx in 1..=6 {
+            out.push(Case { kind, addr: EXEC_ADDRS[1] + 0xB00, style: NumStyle::Hex, ety, exec: true, public: true, ctx });
+        }
+    }
     // a module that holds nothing but extern values
     for ety in [0usize, 1, 2] {
-        out.push(Case { kind: "extern_value_only_module", addr: EXEC_ADDRS[1] + 0x900, style: NumStyle::Hex, ety, exec: true, public: true });
+        out.push(Case { kind: "extern_value_only_module", addr: EXEC_ADDRS[1] + 0x900, style: NumStyle::Hex, ety, exec: true, public: true, ctx: 0 });
     }
     // the value's type is also defined by imported modules that sort before / after the module
     for ety in [3usize, 4, 5] {
-        out.push(Case { kind: "extern_value_with_imports", addr: 0x10900, style: NumStyle::Hex, ety, exec: false, public: true });
+        out.push(Case { kind: "extern_value_with_imports", addr: 0x10900, style: NumStyle::Hex, ety, exec: false, public: true, ctx: 0 });
     }
     for ety in 0..ETYS.len() {
-        out.push(Case { kind: "extern_without_address", addr: 0, style: NumStyle::Dec, ety, exec: false, public: true });
+        out.push(Case { kind: "extern_without_address", addr: 0, style: NumStyle::Dec, ety, exec: false, public: true, ctx: 0 });
         // ... also when another extern value before it does have one
-        out.push(Case { kind: "extern_without_address_after_addressed", addr: 0x10900, style: NumStyle::Hex, ety, exec: false, public: true });
+        out.push(Case { kind: "extern_without_address_after_addressed", addr: 0x10900, style: NumStyle::Hex, ety, exec: false, public: true, ctx: 0 });
     }
     out
 }
@@ -111,7 +119,45 @@ fn module_of(c: &Case) -> String {
     if c.kind == "extern_value_only_module" {
         items = vec![Item::ExternValue { name: "gv".into(), public: c.public, ty: match c.ety { 0 => MTy::b("u32"), 1 => MTy::b("u8").mptr(), _ => MTy::b("u16").arr(4) }, address: Some(c.addr as i128) }];
     }
-    Printer { style: c.style, reverse_type_attrs: false, docs_after_attrs: false }.module(&ModuleS::new("m").with(items))
+    let text = Printer { style: c.style, reverse_type_attrs: false, docs_after_attrs: false }.module(&ModuleS::new("m").with(items));
+    recontext(&text, c.ctx)
+}
+
+/// Rewrites the attribute line that carries `singleton(..)` / `address(..)`: 1 doc line before, 2 doc line
+/// after, 3 doc lines on both sides, 4 one bracket per attribute, 5 the same in reverse order,
+/// 6 reverse order inside one bracket.
+fn recontext(text: &str, ctx: usize) -> String {
+    if ctx == 0 {
+        return text.to_string();
+    }
+    let mut out = String::new();
+    for line in text.lines() {
+        if line.starts_with("#[") && (line.contains("singleton(") || line.contains("address(")) {
+            let inner = line.trim_start_matches("#[").trim_end_matches(']');
+            let mut attrs: Vec<&str> = inner.split(", ").collect();
+            match ctx {
+                1 => out.push_str(&format!("/// where it lives\n{line}\n")),
+                2 => out.push_str(&format!("{line}\n/// where it lives\n")),
+                3 => out.push_str(&format!("/// first\n///\n/// second\n{line}\n/// third\n")),
+                4 | 5 => {
+                    if ctx == 5 {
+                        attrs.reverse();
+                    }
+                    for a in attrs {
+                        out.push_str(&format!("#[{a}]\n"));
+                    }
+                }
+                _ => {
+                    attrs.reverse();
+                    out.push_str(&format!("#[{}]\n", attrs.join(", ")));
+                }
+            }
+        } else {
+            out.push_str(line);
+            out.push('\n');
+        }
+    }
+    out
 }
 
 fn driver(c: &Case) -> String {
@@ -418,7 +464,7 @@ fn run_pairs(rep: &mut Report, only_i: Option<usize>) {
 pub fn run(tier: &str, only: Option<&Value>) -> i32 {
     let mut rep = Report::new("C15", tier);
     let all = cases();
-    rep.rule = "E1: #[singleton(A)] on a type and on an enum, and `extern gv: T` with #[address(A)] for T in {u32, *mut u8, [u16; 4], a user struct, pointer to it, an enum, u64}, A over five mappable absolute addresses and four unmappable ones (text only), in decimal / hex / underscore spelling, public and private; extern values without address must be rejected. Oracle X: the data page is mapped at A on the host; struct singleton: null -> None, pointer to object 1 / 2 -> exactly that object; enum singleton: each variant stored at A is returned; extern value: the returned reference is at A. Oracle S: accessor type, visibility, single address literal, level of indirection. distinct = distinct (kind, address, spelling, type)".into();
+    rep.rule = "E1: #[singleton(A)] on a type and on an enum, and `extern gv: T` with #[address(A)] for T in {u32, *mut u8, [u16; 4], a user struct, pointer to it, an enum, u64}, A over five mappable absolute addresses and four unmappable ones (text only), in decimal / hex / underscore spelling, public and private; the attribute carrying the address preceded / followed by doc lines, in its own bracket, before and after the item's other attributes; extern values without address must be rejected. Oracle X: the data page is mapped at A on the host; struct singleton: null -> None, pointer to object 1 / 2 -> exactly that object; enum singleton: each variant stored at A is returned; extern value: the returned reference is at A. Oracle S: accessor type, visibility, single address literal, level of indirection. distinct = distinct (kind, address, spelling, type)".into();
     let only_i = only.map(|l| l["index"].as_u64().unwrap_or(0) as usize);
     let only_space = only.map(|l| l["space"].as_str().unwrap_or("accessors").to_string());
     if tier == "thorough" && only.is_none() || only_space.as_deref() == Some("pairs") {
@@ -447,7 +493,7 @@ pub fn run(tier: &str, only: Option<&Value>) -> i32 {
             rep.traces += 1;
             rep.evaluations += 1;
             rep.transitions += 1;
-            rep.distinct_str(&format!("{}{:#x}{:?}{}", c.kind, c.addr, c.style, c.ety));
+            rep.distinct_str(&format!("{}{:#x}{:?}{}ctx{}", c.kind, c.addr, c.style, c.ety, c.ctx));
             let viol = match (&v, c.kind) {
                 (pipe::Verdict::Panic(p), _) => Some(("panic".to_string(), p.clone())),
                 (pipe::Verdict::Ok(b), "extern_without_address" | "extern_without_address_after_addressed") => Some(("extern_value_without_address_accepted".to_string(), b.files["m.rs"].clone())),
